@@ -263,6 +263,13 @@ func checkC09(r *Run) {
 		if !ok || in.Block() != f.Blocks[0] {
 			return
 		}
+		if b, ok := d.Call.Value.(*ssa.Builtin); ok && b.Name() == "close" && len(d.Call.Args) == 1 {
+			// defer close(c.done): the channel operand is evaluated here, at goroutine entry
+			if _, isD := isLoadOfField(c.Resolve(d.Call.Args[0]), doneF); isD {
+				deferred = true
+			}
+			return
+		}
 		g := c.StaticCalleeOf(&d.Call)
 		if g == nil {
 			return
@@ -283,34 +290,24 @@ func checkC09(r *Run) {
 		r3.Bad(key+"/done", f.Pos(), "the loop goroutine does not signal its end on every exit (no deferred close(done)): Disconnect waits for ever")
 	}
 	// loop context: stores to the ctx cell
-	if len(f.Params) == 1 {
-		for _, u := range *f.Params[0].Referrers() {
-			st, ok := u.(*ssa.Store)
-			if !ok {
-				continue
+	if cell, _ := c.loopCtxCell(m); cell != nil {
+		for _, s2 := range c.cellStores[cell] {
+			call, _ := c.asCall(s2.Val)
+			if call == nil && s2.Parent() == cell.Parent() {
+				continue // the variable's initialisation with the context the loop was started with
 			}
-			cell, ok := st.Addr.(*ssa.Alloc)
-			if !ok {
-				continue
-			}
-			for _, s2 := range c.cellStores[cell] {
-				if s2 == st {
-					continue
-				}
-				call, _ := c.asCall(s2.Val)
-				inOnce := false
-				for _, mc := range c.makeClosures[s2.Parent()] {
-					for _, uu := range *mc.Referrers() {
-						if k, ok := uu.(*ssa.Call); ok && isStdCall(&k.Call, "sync", "Do") {
-							inOnce = true
-						}
+			inOnce := false
+			for _, mc := range c.makeClosures[s2.Parent()] {
+				for _, uu := range *mc.Referrers() {
+					if k, ok := uu.(*ssa.Call); ok && isStdCall(&k.Call, "sync", "Do") {
+						inOnce = true
 					}
 				}
-				if call != nil && isStdCall(&call.Call, "context", "Background") && inOnce {
-					r3.OK(key+"/ctx", s2.Pos(), "the loop context is replaced only by context.Background(), inside the once-only first-success block")
-				} else {
-					r3.Bad(key+"/ctx", s2.Pos(), "the loop's context is replaced outside the once-only first-success block")
-				}
+			}
+			if call != nil && isStdCall(&call.Call, "context", "Background") && inOnce {
+				r3.OK(key+"/ctx", s2.Pos(), "the loop context is replaced only by context.Background(), inside the once-only first-success block")
+			} else {
+				r3.Bad(key+"/ctx", s2.Pos(), "the loop's context is replaced outside the once-only first-success block")
 			}
 		}
 	}
@@ -508,6 +505,9 @@ func (c *Ctx) ruleLoopStopsOnlyOnRequest(rr *RuleRep, m *reconnModel) {
 	key := FuncName(f)
 	// the loop context: the goroutine's context parameter or the cell holding it
 	isLoopCtx := func(v ssa.Value) bool {
+		if c.isLoopCtx(m, v) {
+			return true
+		}
 		if len(f.Params) == 0 {
 			return false
 		}
@@ -963,7 +963,15 @@ func checkC08(r *Run) {
 			}
 		}
 	}
-	// who may touch subEstablished
+	// who may touch subEstablished: code that runs on the task goroutine only
+	ctxs, _, _ := c.goroutineContexts()
+	taskOnly := func(fn *ssa.Function) bool {
+		ref := c.Method("RetryClient", "publish")
+		if ref == nil || len(ctxs[ref]) != 1 || ctxs[ref]["api"] {
+			return false
+		}
+		return len(ctxs[fn]) == 1 && ctxString(ctxs[fn]) == ctxString(ctxs[ref])
+	}
 	for _, fn := range c.Funcs {
 		eachInstr(fn, func(in ssa.Instruction) {
 			fa, ok := in.(*ssa.FieldAddr)
@@ -977,6 +985,8 @@ func checkC08(r *Run) {
 			okFn := fn.Parent() != nil && (top == c.Method("RetryClient", "subscribe") || top == c.Method("RetryClient", "unsubscribe") || top == c.Method("RetryClient", "Resubscribe"))
 			if okFn {
 				r3.OKt(FuncName(fn)+"/subEstablished", in.Pos(), "accessed inside a task-goroutine closure of %s", FuncName(top))
+			} else if taskOnly(fn) {
+				r3.OKt(FuncName(fn)+"/subEstablished", in.Pos(), "accessed in %s, which runs on the task goroutine only", FuncName(fn))
 			} else {
 				r3.Bad(FuncName(fn)+"/subEstablished", in.Pos(), "the established-subscription list is accessed in %s, outside the request closures / Resubscribe task that own it", FuncName(fn))
 			}
